@@ -231,8 +231,16 @@ theorem serverRemoveAll_srvOf {c c' : Cell} {sid : Nat} (h : serverRemoveAll c s
 
 /-! ### `restore_placement` -/
 
-/-- The writes of the restore path never create a record. -/
+/-- The restore path never creates a record: a write is no put, or it republishes the record of
+    `sid` it is restoring (`_record_placement` after the put branch). -/
 def NoPut (w : Write) : Prop := ∀ s a i n e, w ≠ .putRec s a i n e
+
+/-- Every `putRec` of the write addresses a key of `st` under server `sid`. -/
+def PutsOn (st : Store) (sid : Nat) (w : Write) : Prop :=
+  ∀ s a i n e, w = .putRec s a i n e → s = sid ∧ HasKey st sid a
+
+theorem NoPut.within {st : Store} {sid : Nat} {w : Write} (h : NoPut w) : PutsOn st sid w :=
+  fun s a i n e he => absurd he (h s a i n e)
 
 theorem restoreFail_spec {c1 : Cell} {a : App} {sid : Nat} {now : Int} {rs rs' : RState}
     (h : restoreFail c1 a sid now rs = .ok rs') :
@@ -258,18 +266,32 @@ theorem restoreFail_spec {c1 : Cell} {a : App} {sid : Nat} {now : Int} {rs rs' :
     · exact Or.inl hw
     · exact Or.inr (fun _ _ _ _ _ e => nomatch e)
 
-theorem restoreDone_spec {c1 : Cell} {aid : Nat} {ri : Bool} {r : PRec} {rs rs' : RState}
-    (h : restoreDone c1 aid ri r rs = .ok rs') :
-    (∀ x, srvOf rs'.cell x = srvOf c1 x) ∧ rs'.writes = rs.writes := by
+theorem mem_recordIfChanged {c2 : Cell} {sid aid : Nat} {r : PRec} {w : Write}
+    (h : w ∈ recordIfChanged c2 sid aid r) : ∃ i n e, w = .putRec sid aid i n e := by
+  unfold recordIfChanged at h
+  split at h
+  · split at h
+    · cases h
+    · simp only [List.mem_singleton] at h; exact ⟨_, _, _, h⟩
+  · cases h
+
+theorem restoreDone_spec {c1 : Cell} {sid aid : Nat} {ri : Bool} {r : PRec} {rs rs' : RState}
+    (h : restoreDone c1 sid aid ri r rs = .ok rs') :
+    (∀ x, srvOf rs'.cell x = srvOf c1 x) ∧
+    (∀ w ∈ rs'.writes, w ∈ rs.writes ∨ ∃ i n e, w = .putRec sid aid i n e) := by
   unfold restoreDone at h
   obtain ⟨c2, h2, h⟩ := bind_ok'.mp h
   simp only [pure, Except.pure] at h
   injection h with h; subst h
-  refine ⟨?_, rfl⟩
-  intro x
-  split at h2
-  · exact forceIdentity_srvOf h2 x
-  · simp only [pure, Except.pure] at h2; injection h2 with h2; subst h2; rfl
+  refine ⟨?_, ?_⟩
+  · intro x
+    split at h2
+    · exact forceIdentity_srvOf h2 x
+    · simp only [pure, Except.pure] at h2; injection h2 with h2; subst h2; rfl
+  · intro w hw
+    rcases List.mem_append.mp hw with hw | hw
+    · exact Or.inl hw
+    · exact Or.inr (mem_recordIfChanged hw)
 
 theorem restoreAttempt_spec {c c1 : Cell} {a : App} {sid : Nat} {fresh ok : Bool} {r : PRec}
     (h : restoreAttempt c a sid fresh r = .ok (c1, ok)) (x s : Nat) (hs : srvOf c1 x = some s) :
@@ -291,7 +313,7 @@ theorem restoreAttempt_spec {c c1 : Cell} {a : App} {sid : Nat} {fresh ok : Bool
 theorem restoreOne_spec {st : Store} {sid : Nat} {ri : Bool} {rs rs' : RState} {aid : Nat}
     (h : restoreOne st sid ri rs aid = .ok rs') :
     (∀ x s, srvOf rs'.cell x = some s → srvOf rs.cell x = some s ∨ (x = aid ∧ s = sid ∧ HasKey st sid aid)) ∧
-    (∀ w ∈ rs'.writes, w ∈ rs.writes ∨ NoPut w) := by
+    (∀ w ∈ rs'.writes, w ∈ rs.writes ∨ PutsOn st sid w) := by
   unfold restoreOne at h
   split at h
   · simp only [pure, Except.pure] at h
@@ -320,23 +342,31 @@ theorem restoreOne_spec {st : Store} {sid : Nat} {ri : Bool} {rs rs' : RState} {
       have hatt' := fun x s hs => restoreAttempt_spec hatt x s hs
       split at h
       · obtain ⟨h1, h2⟩ := restoreFail_spec h
-        refine ⟨?_, h2⟩
+        refine ⟨?_, fun w hw => (h2 w hw).imp id NoPut.within⟩
         intro x s hs
         rcases hatt' x s (h1 x s hs) with h' | ⟨rfl, rfl⟩
         · exact Or.inl h'
         · exact Or.inr ⟨hid, rfl, hkey⟩
       · obtain ⟨h1, h2⟩ := restoreDone_spec h
-        refine ⟨?_, fun w hw => Or.inl (h2 ▸ hw)⟩
-        intro x s hs
-        rw [h1 x] at hs
-        rcases hatt' x s hs with h' | ⟨rfl, rfl⟩
-        · exact Or.inl h'
-        · exact Or.inr ⟨hid, rfl, hkey⟩
+        refine ⟨?_, ?_⟩
+        · intro x s hs
+          rw [h1 x] at hs
+          rcases hatt' x s hs with h' | ⟨rfl, rfl⟩
+          · exact Or.inl h'
+          · exact Or.inr ⟨hid, rfl, hkey⟩
+        · intro w hw
+          rcases h2 w hw with h' | ⟨i, n, e, rfl⟩
+          · exact Or.inl h'
+          · right
+            intro s' a' i' n' e' he
+            injection he with e1 e2
+            subst e1 e2
+            exact ⟨rfl, hkey⟩
 
 theorem restoreLoop_spec {st : Store} {sid : Nat} {ri : Bool} :
     ∀ (l : List Nat) (rs rs' : RState), l.foldlM (restoreOne st sid ri) rs = .ok rs' →
       (∀ x s, srvOf rs'.cell x = some s → srvOf rs.cell x = some s ∨ (s = sid ∧ HasKey st sid x)) ∧
-      (∀ w ∈ rs'.writes, w ∈ rs.writes ∨ NoPut w) := by
+      (∀ w ∈ rs'.writes, w ∈ rs.writes ∨ PutsOn st sid w) := by
   intro l
   induction l with
   | nil =>
@@ -363,10 +393,10 @@ theorem restoreLoop_spec {st : Store} {sid : Nat} {ri : Bool} :
       · exact Or.inr h'
 
 /-- `Loader.restore_placement(sid)` places only instances recorded under `sid`, on `sid`, and never
-    writes a record. -/
+    creates a record (it may republish an existing one). -/
 theorem restorePlacement_spec {c c' : Cell} {st : Store} {sid : Nat} {ri : Bool} {ws : List Write} {restored : List Nat}
     (h : restorePlacement c st sid ri = .ok (c', ws, restored)) :
-    (∀ x s, srvOf c' x = some s → srvOf c x = some s ∨ (s = sid ∧ HasKey st sid x)) ∧ (∀ w ∈ ws, NoPut w) := by
+    (∀ x s, srvOf c' x = some s → srvOf c x = some s ∨ (s = sid ∧ HasKey st sid x)) ∧ (∀ w ∈ ws, PutsOn st sid w) := by
   unfold restorePlacement at h
   split at h
   · cases h
